@@ -49,7 +49,7 @@ def cfgOf (flags : String) (len : Nat) : Cfg :=
 def tkLoop (cfg : Cfg) (env : MacroEnv) : Nat → RState → List String → String
   | 0, r, acc => "t=" ++ ",".intercalate acc.reverse ++ " " ++ stateStr r
   | n + 1, r, acc =>
-    match tokensGet cfg env bigFuel (maxMacroExpansions + 5) r with
+    match tokensGet cfg env bigFuel 1000000000 r with
     | .fault f => s!"fault {repr f}"
     | .exit => "exit"
     | .fuel => "fuel"
